@@ -245,6 +245,8 @@ def add_user_rules(r: random.Random, w: World, p_rewrite: float = 0.0, p_halt: f
             rw["owner"] = r.randrange(8)
         times = None if r.random() < 0.6 else sorted(r.sample(range(total + 1), min(total + 1, r.randint(1, 5))))
         place("RW", {"hooks": [{"kind": "order", "before": True, "times": times}], "rewrite": rw})
+    if r.random() < p_rewrite * 0.6:
+        place("PCX", {"hooks": [{"kind": "order", "before": True, "times": None}], "premature": {"every": r.choice([1, 2, 3])}})
     if r.random() < p_halt:
         plain = [m["name"] for m in w.markets if not m["index"]]
         w.cfg["THX"] = {"class": "TradingHaltRule", "targetMarkets": [r.choice(plain)],
